@@ -239,6 +239,65 @@ impl FromVal for Box<u16> {
 }
 fv_struct!(BBig { amount, key, opt, items, name, arr, m, st, e, big, fl, f4, nested, tup, boxed, tail });
 
+/// Enum with implicit, explicit, gapped and mixed discriminants (implicit variants after the FIRST and
+/// after LATER explicit ones): 0, 3, 4, 10, 11, 240, 241.
+#[derive(BorshSerialize, BorshDeserialize, TypeToIdl, Debug, Clone, PartialEq)]
+#[borsh(crate = "star_frame::borsh", use_discriminant = true)]
+#[repr(u8)]
+pub enum BMixed {
+    First,
+    Open = 3,
+    PartiallyFilled,
+    Cancelled = 10,
+    Expired,
+    Late(u16) = 0xF0,
+    End { x: u8 },
+}
+impl FromVal for BMixed {
+    fn from_val(v: &Val) -> Option<Self> {
+        let Val::Variant(i, p) = v else { return None };
+        match (i, &**p) {
+            (0, Val::Unit) => Some(BMixed::First),
+            (1, Val::Unit) => Some(BMixed::Open),
+            (2, Val::Unit) => Some(BMixed::PartiallyFilled),
+            (3, Val::Unit) => Some(BMixed::Cancelled),
+            (4, Val::Unit) => Some(BMixed::Expired),
+            (5, Val::Seq(f)) if f.len() == 1 => Some(BMixed::Late(FromVal::from_val(&f[0])?)),
+            (6, Val::Seq(f)) if f.len() == 1 => Some(BMixed::End { x: FromVal::from_val(&f[0])? }),
+            _ => None,
+        }
+    }
+}
+pub const S_BMIXED: &str = "(enum (0 unit) (3 unit) (4 unit) (10 unit) (11 unit) (240 (struct (u 2))) (241 (struct (u 1))))";
+
+/// `#[type_to_idl(skip)]` hides the marked field and every field after it: first / middle / last position.
+#[derive(BorshSerialize, BorshDeserialize, TypeToIdl, Debug, Clone, PartialEq)]
+#[borsh(crate = "star_frame::borsh")]
+pub struct SkipMid {
+    pub version: u8,
+    #[type_to_idl(skip)]
+    pub reserved: u16,
+    pub limit: u32,
+}
+fv_struct!(SkipMid { version, reserved, limit });
+#[derive(BorshSerialize, BorshDeserialize, TypeToIdl, Debug, Clone, PartialEq)]
+#[borsh(crate = "star_frame::borsh")]
+pub struct SkipFirst {
+    #[type_to_idl(skip)]
+    pub hidden: u16,
+    pub b: u8,
+}
+fv_struct!(SkipFirst { hidden, b });
+#[derive(BorshSerialize, BorshDeserialize, TypeToIdl, Debug, Clone, PartialEq)]
+#[borsh(crate = "star_frame::borsh")]
+pub struct SkipLast {
+    pub a: Vec<u8>,
+    pub b: u32,
+    #[type_to_idl(skip)]
+    pub pad: [u8; 3],
+}
+fv_struct!(SkipLast { a, b, pad });
+
 pub const S_BINNER: &str = "(struct (u 1) (i 2) bool)";
 pub const S_BENUM: &str = "(enum (3 unit) (7 (struct (u 1) (opt (u 2)))) (200 (struct (u 4) bool)))";
 pub const S_BTUPLE: &str = "(struct (u 2) (opt (struct (u 1) (i 2) bool)) (struct (u 1) (u 4)))";
@@ -289,6 +348,35 @@ pub struct ZcBig {
 }
 fv_struct!(ZcBig { a, b, c, inner, arr, last });
 
+#[zero_copy]
+#[derive(Debug, PartialEq, Eq, TypeToIdl)]
+#[repr(u8)]
+pub enum ZcMixed {
+    Zero,
+    Open = 3,
+    PartiallyFilled,
+    Cancelled = 10,
+    Expired,
+    Done = 200,
+    Archived,
+}
+impl FromVal for ZcMixed {
+    fn from_val(v: &Val) -> Option<Self> {
+        let Val::Variant(i, _) = v else { return None };
+        Some(match i {
+            0 => ZcMixed::Zero,
+            1 => ZcMixed::Open,
+            2 => ZcMixed::PartiallyFilled,
+            3 => ZcMixed::Cancelled,
+            4 => ZcMixed::Expired,
+            5 => ZcMixed::Done,
+            6 => ZcMixed::Archived,
+            _ => return None,
+        })
+    }
+}
+pub const S_ZCMIXED: &str = "(enum (0 unit) (3 unit) (4 unit) (10 unit) (11 unit) (200 unit) (201 unit))";
+
 pub const S_ZCINNER: &str = "(struct (u 2) (arr (u 1) 3) pubkey)";
 pub const S_ZCSIDE: &str = "(enum (0 unit) (5 unit) (6 unit))";
 pub fn s_zcbig() -> String {
@@ -331,6 +419,7 @@ pub enum UEnum {
     Bytes(List<u8, u8>) = 4,
     Nested(UInner),
     Words(List<PackedValue<u16>, u16>) = 200,
+    More(List<u8, u8>),
 }
 impl FromVal for UEnumOwned {
     fn from_val(v: &Val) -> Option<Self> {
@@ -346,12 +435,13 @@ impl FromVal for UEnumOwned {
             1 => Some(UEnumOwned::Bytes(FromVal::from_val(&field(p)?)?)),
             2 => Some(UEnumOwned::Nested(FromVal::from_val(&field(p)?)?)),
             3 => Some(UEnumOwned::Words(FromVal::from_val(&field(p)?)?)),
+            4 => Some(UEnumOwned::More(FromVal::from_val(&field(p)?)?)),
             _ => None,
         }
     }
 }
 pub fn s_uenum() -> String {
-    format!("(enum (0 unit) (4 (struct (list (u 1) 1))) (5 (struct {S_UINNER})) (200 (struct (list (u 2) 2))))")
+    format!("(enum (0 unit) (4 (struct (list (u 1) 1))) (5 (struct {S_UINNER})) (200 (struct (list (u 2) 2))) (201 (struct (list (u 1) 1))))")
 }
 
 /// An unsized struct spanning every container (sized part first, unsized fields in order).
@@ -411,6 +501,9 @@ pub fn expected_fields(name: &str) -> Option<&'static [&'static str]> {
         "BInner" => &["a", "b", "flag"],
         "BBig" => &["amount", "key", "opt", "items", "name", "arr", "m", "st", "e", "big", "fl", "f4", "nested", "tup", "boxed", "tail"],
         "ZcInner" => &["x", "y", "k"],
+        "SkipMid" => &["version", "reserved", "limit"],
+        "SkipFirst" => &["hidden", "b"],
+        "SkipLast" => &["a", "b", "pad"],
         "ZcBig" => &["a", "b", "c", "inner", "arr", "last"],
         "UNested" => &["tag", "bytes", "tail"],
         "UInner" => &["tag", "bytes", "words"],
@@ -425,6 +518,9 @@ pub struct TyEntry {
     pub idl: fn(&mut IdlDefinition) -> IdlTypeDef,
     /// the real serializer on the value described by a `Val` (None: ill-typed value text)
     pub ser: fn(&Val) -> Option<Vec<u8>>,
+    /// `#[type_to_idl(skip)]` on field `k` (the IDL describes the first `k` fields): (k, byte size of the
+    /// hidden fields — fixed-size in every harness type)
+    pub skip: Option<(usize, usize)>,
 }
 
 fn idl_of<T: TypeToIdl + ?Sized>(def: &mut IdlDefinition) -> IdlTypeDef {
@@ -453,7 +549,7 @@ where
 
 macro_rules! e {
     ($name:literal, $shape:expr, $idl:ty, $ser:expr) => {
-        TyEntry { name: $name, shape: $shape.to_string(), idl: idl_of::<$idl>, ser: $ser }
+        TyEntry { name: $name, shape: $shape.to_string(), idl: idl_of::<$idl>, ser: $ser, skip: None }
     };
 }
 
@@ -479,10 +575,15 @@ pub fn table() -> Vec<TyEntry> {
         e!("BEnum", S_BENUM, BEnum, ser_borsh::<BEnum>),
         e!("BTuple", S_BTUPLE, BTuple, ser_borsh::<BTuple>),
         e!("BBig", s_bbig(), BBig, ser_borsh::<BBig>),
+        e!("BMixed", S_BMIXED, BMixed, ser_borsh::<BMixed>),
+        TyEntry { skip: Some((1, 6)), ..e!("SkipMid", "(struct (u 1) (u 2) (u 4))", SkipMid, ser_borsh::<SkipMid>) },
+        TyEntry { skip: Some((0, 3)), ..e!("SkipFirst", "(struct (u 2) (u 1))", SkipFirst, ser_borsh::<SkipFirst>) },
+        TyEntry { skip: Some((2, 3)), ..e!("SkipLast", "(struct (list (u 1) 4) (u 4) (arr (u 1) 3))", SkipLast, ser_borsh::<SkipLast>) },
         // zero-copy (bytemuck)
         e!("packed_u64", "(u 8)", PackedValue<u64>, ser_pod::<PackedValue<u64>>),
         e!("ZcInner", S_ZCINNER, ZcInner, ser_pod::<ZcInner>),
         e!("ZcSide", S_ZCSIDE, ZcSide, ser_pod::<ZcSide>),
+        e!("ZcMixed", S_ZCMIXED, ZcMixed, ser_pod::<ZcMixed>),
         e!("ZcBig", s_zcbig(), ZcBig, ser_pod::<ZcBig>),
         // unsized containers (FromOwned)
         e!("list_u8_u8", "(list (u 1) 1)", List<u8, u8>, ser_unsized::<List<u8, u8>>),
